@@ -53,7 +53,13 @@ def gen(rng, tier):
                     fam = rng.choice(FAMS)
                     out.append(Case("inverse", ty, fam, "-", [nx, ny], cn + ax + ay, tag=tag))
                     wy = G.float_simplex(rng, ty, ny) if mode == "float" else G.grid_simplex(rng, ny, den)
-                    out.append(Case("abduce", ty, fam, "spx", [nx, ny], flat_sx(wy) + cn + ax, tag=tag))
+                    for st in (["spx", "ref", "own"] if i % 3 == 0 else [rng.choice(["spx", "ref", "own"])]):
+                        out.append(Case("abduce", ty, fam, st, [nx, ny], flat_sx(wy) + cn + ax, tag=tag))
+                    if i % 5 == 0:
+                        # all conditionals vacuous: the marginal base rate is undefined, abduction returns nothing
+                        vac = sum(([0.0] * ny + [1.0] for _ in range(nx)), [])
+                        for st in ("spx", "ref", "own"):
+                            out.append(Case("abduce", ty, rng.choice(FAMS), st, [nx, ny], flat_sx(wy) + vac + ax, tag="all_vacuous"))
                     out.append(Case("abduce_with", ty, fam, rng.choice(["spx", "ref"]), [nx, ny],
                                     flat_sx(wy) + cn + ax + ay, tag=tag))
                     if tier != "quick" or i % 6 == 0:
